@@ -172,8 +172,8 @@ Proof.
       * apply cont_1m_sq_down.
       * apply cont_sq_up.
       * intros _. field. lra.
-    + intros _. rcases; try lra. unfold Rdiv. ring.
-  - intros _. rcases; try lra. unfold Rdiv. ring.
+    + intros _. rcases; try lra; unfold Rdiv; ring.
+  - intros _. rcases; try lra; unfold Rdiv; ring.
 Qed.
 Theorem s_continuous a b : a < b -> continuity (fun x => mf_s RO x a b).
 Proof. intros Hab x. apply cont_iff. apply s_cont. exact Hab. Qed.
@@ -201,8 +201,8 @@ Proof.
       * apply cont_1m_sq_up.
       * apply cont_sq_down.
       * intros _. field. lra.
-    + intros _. rcases; try lra. unfold Rdiv. ring.
-  - intros _. rcases; try lra. unfold Rdiv. ring.
+    + intros _. rcases; try lra; unfold Rdiv; ring.
+  - intros _. rcases; try lra; unfold Rdiv; ring.
 Qed.
 Theorem z_continuous a b : a < b -> continuity (fun x => mf_z RO x a b).
 Proof. intros Hab x. apply cont_iff. apply z_cont. exact Hab. Qed.
